@@ -398,3 +398,51 @@ def wpt_vectors(eng):
         return {"error": f"rc={r.returncode} " + (r.stdout + r.stderr)[-300:]}
     fails = [x[:300] for x in r.stdout.splitlines() if "MISMATCH" in x or " HREF " in x][:8]
     return {"parsed": 2 * len(rows), "bad": bad, "fails": fails}
+
+
+def setter_values():
+    out = set([b"", b"a", b"b c", b"?x", b"#y", b"1", b"80", b"443", b"65536", b"8a", b"/", b"//", b"/.", b"..", b"%", b"http", b"HTTPS", b"ws", b"file", b"x:",
+               b"a@", b":", b"\t?", b"[::1]", b"1.2", b"1.2.3.4", b"1.2.3.4.5", b"0x100000000", b"256.256.256.256", b"example.com", b"EXAMPLE.com:8080",
+               b"\\", b"A", b"xn--", b" ", b"a b", b"//x", b"/a/../b", b"C|", b"localhost", b"a:b@c", b"\x00", b"~", b"^", b"<>", b"`", b"{}", b"'"])
+    p = os.path.join(REPO, "tests/wpt/setters_tests.json")
+    try:
+        d = json.load(open(p, encoding="utf-8"))
+        for k, v in d.items():
+            if isinstance(v, list):
+                for t in v:
+                    if isinstance(t, dict) and isinstance(t.get("new_value"), str):
+                        out.add(t["new_value"].encode("utf-8", "surrogatepass")[:60])
+    except Exception:  # noqa
+        pass
+    return sorted(out)
+
+
+def setter_corpus(eng):
+    """native setter sweep (harness/setter_corpus.c)"""
+    from engine import Unit
+    u = Unit("default", ["vk_setter_sweep"])
+    obj = eng.native_obj(u)
+    cpath = os.path.join(eng.work, "corpus_full.bin")
+    if not os.path.exists(cpath):
+        with open(cpath, "wb") as f:
+            for b in corpus_full():
+                f.write(struct.pack("<I", len(b)))
+                f.write(b)
+    vpath = os.path.join(eng.work, "setter_values.bin")
+    with open(vpath, "wb") as f:
+        for b in setter_values():
+            f.write(struct.pack("<I", len(b)))
+            f.write(b)
+    exe = os.path.join(eng.work, "setter_corpus.exe")
+    o = os.path.join(eng.work, "setter_corpus.o")
+    r = subprocess.run([GCC, "-O1", "-w", "-c", os.path.join(VERIF, "harness", "setter_corpus.c"), "-o", o, "-I", os.path.join(VERIF, "harness")], capture_output=True, text=True)
+    if r.returncode != 0:
+        return {"error": "gcc: " + r.stderr[-400:]}
+    r = subprocess.run([CLANGXX, "-no-pie", o, obj, "-o", exe, "-lpthread"], capture_output=True, text=True)
+    if r.returncode != 0:
+        return {"error": "link: " + r.stderr[-400:]}
+    r = subprocess.run([exe, cpath, vpath], capture_output=True, text=True, errors="replace", timeout=1200)
+    m = re.search(r"SETTERCORPUS runs=(\d+) bad=(\d+)", r.stdout)
+    if not m:
+        return {"error": f"rc={r.returncode} " + (r.stdout + r.stderr)[-300:]}
+    return {"parsed": int(m.group(1)), "bad": int(m.group(2)), "fails": [x[:300] for x in re.findall(r"SETTER-FAIL.*", r.stdout)[:10]]}
